@@ -593,60 +593,57 @@ func ruleRequired(c *Ctx) []Ob {
 		}
 		s.check(okDom, "test:dominates-success", c.InstrPos(t), "the success return is reachable only through the required-field check", "a success return bypasses the required-field check")
 	}
-	// bitset siblings
-	type split struct {
-		shift, mask int64
-		ok          bool
-		op          token.Token
+	// bitset siblings: each method addresses word i/W with mask 1<<(i%W), W the word width, and the three agree
+	var words, bits int64
+	if o, ok := c.ByPath[pkgReflect].Types.Scope().Lookup("bitset").(*types.TypeName); ok {
+		if st, ok := o.Type().Underlying().(*types.Struct); ok && st.NumFields() == 1 {
+			if arr, ok := st.Field(0).Type().Underlying().(*types.Array); ok {
+				words, bits = arr.Len(), c.Sizes.Sizeof(arr.Elem())*8
+			}
+		}
 	}
-	sp := map[string]split{}
+	wantOp := map[string]token.Token{"set": token.OR, "unset": token.AND_NOT, "test": token.AND}
+	var probs []string
+	nFound := 0
 	for _, m := range []string{"set", "unset", "test"} {
 		f := c.Func(pkgReflect, "(*bitset)."+m)
-		if f == nil {
+		if f == nil || len(f.Params) < 2 {
 			s.bad("bitset."+m, "-", "not found")
 			continue
 		}
-		var sh, mk int64 = -1, -1
-		var op token.Token
+		nFound++
+		bind := map[*ssa.Parameter]string{f.Params[1]: "i"}
+		gotW, gotM, gotOp := "", "", token.ILLEGAL
 		for _, b := range f.Blocks {
 			for _, ins := range b.Instrs {
 				bo, ok := ins.(*ssa.BinOp)
-				if !ok {
+				if !ok || bo.Op != token.OR && bo.Op != token.AND_NOT && bo.Op != token.AND {
 					continue
 				}
-				switch bo.Op {
-				case token.SHR:
-					if bo.X == ssa.Value(f.Params[1]) {
-						sh, _ = constInt(bo.Y)
+				for _, pr := range [][2]ssa.Value{{bo.X, bo.Y}, {bo.Y, bo.X}} {
+					ld, ok := pr[0].(*ssa.UnOp)
+					if !ok || ld.Op != token.MUL {
+						continue
 					}
-				case token.AND:
-					if bo.X == ssa.Value(f.Params[1]) {
-						mk, _ = constInt(bo.Y)
-					} else {
-						op = token.AND
+					ia, ok := ld.X.(*ssa.IndexAddr)
+					if !ok || !strings.HasSuffix(path(ia.X), ".data") {
+						continue
 					}
-				case token.OR, token.AND_NOT:
-					op = bo.Op
+					gotW, gotM, gotOp = symExpr(ia.Index, bind, 0), symExpr(pr[1], bind, 0), bo.Op
 				}
 			}
 		}
-		sp[m] = split{sh, mk, sh >= 0 && mk >= 0, op}
+		wW, wM := fmt.Sprintf("(i/%d)", bits), fmt.Sprintf("(1<<(i%%%d))", bits)
+		if gotW != wW || gotM != wM || gotOp != wantOp[m] {
+			probs = append(probs, fmt.Sprintf("%s: word %s mask %s op %s (expected %s, %s, %s)", m, gotW, gotM, gotOp, wW, wM, wantOp[m]))
+		}
 	}
-	if len(sp) == 3 {
-		good := sp["set"].ok && sp["set"].shift == sp["unset"].shift && sp["set"].shift == sp["test"].shift && sp["set"].mask == sp["unset"].mask && sp["set"].mask == sp["test"].mask
-		// word width
-		var words, bits int64
-		if o, ok := c.ByPath[pkgReflect].Types.Scope().Lookup("bitset").(*types.TypeName); ok {
-			if st, ok := o.Type().Underlying().(*types.Struct); ok && st.NumFields() == 1 {
-				if arr, ok := st.Field(0).Type().Underlying().(*types.Array); ok {
-					words, bits = arr.Len(), c.Sizes.Sizeof(arr.Elem())*8
-				}
-			}
+	if nFound == 3 {
+		if words*bits < 65536 {
+			probs = append(probs, fmt.Sprintf("%d words x %d bits do not cover 65536 ids", words, bits))
 		}
-		good = good && bits > 0 && (int64(1)<<uint(sp["set"].shift)) == bits && sp["set"].mask == bits-1 && words*bits >= 65536
-		good = good && sp["set"].op == token.OR && sp["unset"].op == token.AND_NOT && sp["test"].op == token.AND
-		s.check(good, "bitset:siblings", "-", fmt.Sprintf("set/unset/test use i>>%d, i&%d on %d words of %d bits", sp["set"].shift, sp["set"].mask, words, bits),
-			fmt.Sprintf("bitset methods disagree or do not cover 65536 ids: set %+v unset %+v test %+v, %d words x %d bits", sp["set"], sp["unset"], sp["test"], words, bits))
+		s.check(len(probs) == 0, "bitset:siblings", "-", fmt.Sprintf("set/unset/test address word i/%d with mask 1<<(i%%%d) on %d words", bits, bits, words),
+			"bitset methods disagree or do not cover 65536 ids: "+strings.Join(probs, "; "))
 	}
 	// requiredFieldIDs appended exactly under Spec == Required
 	if ff := c.Func(pkgReflect, "(*structDesc).fromDefsFields"); ff != nil {
@@ -1556,4 +1553,83 @@ func viaMallocIfPointer(v ssa.Value, depth int) bool {
 		}
 	}
 	return false
+}
+
+// symExpr writes an integer expression in a canonical form in which shifts and masks by powers of two read as division and
+// remainder, conversions are dropped and single-return module helpers are expanded with their arguments.
+func symExpr(v ssa.Value, bind map[*ssa.Parameter]string, depth int) string {
+	if depth > 6 {
+		return "?"
+	}
+	switch x := v.(type) {
+	case *ssa.Const:
+		if n, ok := constInt(x); ok {
+			return fmt.Sprint(n)
+		}
+	case *ssa.Parameter:
+		if sv, ok := bind[x]; ok {
+			return sv
+		}
+		return x.Name()
+	case *ssa.Convert:
+		return symExpr(x.X, bind, depth)
+	case *ssa.ChangeType:
+		return symExpr(x.X, bind, depth)
+	case *ssa.BinOp:
+		a := symExpr(x.X, bind, depth+1)
+		if cst, ok := constInt(x.Y); ok {
+			switch x.Op {
+			case token.SHR:
+				if cst >= 0 && cst < 62 {
+					return fmt.Sprintf("(%s/%d)", a, int64(1)<<uint(cst))
+				}
+			case token.QUO:
+				return fmt.Sprintf("(%s/%d)", a, cst)
+			case token.AND:
+				if cst > 0 && (cst+1)&cst == 0 {
+					return fmt.Sprintf("(%s%%%d)", a, cst+1)
+				}
+			case token.REM:
+				return fmt.Sprintf("(%s%%%d)", a, cst)
+			}
+		}
+		return "(" + a + x.Op.String() + symExpr(x.Y, bind, depth+1) + ")"
+	case *ssa.Extract:
+		if call, ok := x.Tuple.(*ssa.Call); ok {
+			if r := symCallResult(call, x.Index, bind, depth); r != "" {
+				return r
+			}
+		}
+	case *ssa.Call:
+		if r := symCallResult(x, 0, bind, depth); r != "" {
+			return r
+		}
+	}
+	return path(v)
+}
+
+func symCallResult(call *ssa.Call, idx int, bind map[*ssa.Parameter]string, depth int) string {
+	f := call.Call.StaticCallee()
+	if f == nil || f.Blocks == nil {
+		return ""
+	}
+	var ret *ssa.Return
+	for _, b := range f.Blocks {
+		if r, ok := b.Instrs[len(b.Instrs)-1].(*ssa.Return); ok {
+			if ret != nil {
+				return ""
+			}
+			ret = r
+		}
+	}
+	if ret == nil || idx >= len(ret.Results) {
+		return ""
+	}
+	nb := map[*ssa.Parameter]string{}
+	for k, prm := range f.Params {
+		if k < len(call.Call.Args) {
+			nb[prm] = symExpr(call.Call.Args[k], bind, depth+1)
+		}
+	}
+	return symExpr(ret.Results[idx], nb, depth+1)
 }
